@@ -332,6 +332,8 @@ func Generate(p Profile, n int, seed int64) []Script {
 		var planned []Step
 		if p.Mutations && i%4 == 3 {
 			switch {
+			case i%32 == 7:
+				planned = g.merged(rng)
 			case i%16 == 15:
 				planned = g.lookalike(rng)
 			case i%8 == 3:
@@ -672,6 +674,53 @@ func validExpr(e []Tok) bool {
 	}
 
 	return len(e) > 0
+}
+
+// merged: two literals of which one is a byte prefix of the other ("foo", "foobar") under one parent, the
+// longer one's rule with backtracking off and restricted to GET, and a covering wildcard. When the rule of the
+// shorter literal goes away, the tree joins the two nodes again - the longer one's rule must stay what it was.
+func (g *gen) merged(rng *rand.Rand) []Step {
+	g.lits = append(g.lits, "foo", "foobar")
+	lit := func(v string) Tok { return Tok{T: "lit", V: v} }
+	mk := func(src string, e []Tok, bt string, methods []Method) Rule {
+		g.nid++
+
+		return Rule{ID: fmt.Sprintf("%s-r%d", src, g.nid), Src: src, Methods: methods, Hosts: []Matcher{},
+			Routes: []Route{{Expr: e, Params: []Matcher{}}}, BtSet: bt, Bt: bt == "true"}
+	}
+
+	var parent []Tok
+	if rng.Intn(2) == 0 {
+		parent = []Tok{lit("qux")}
+	}
+
+	at := func(t Tok) []Tok { return append(append([]Tok{}, parent...), t) }
+	onlyGet := []Method{{M: "GET"}}
+
+	short := mk("s1", at(lit("foo")), "unset", onlyGet)
+	long := mk("s2", at(lit("foobar")), "false", onlyGet)
+	cover := mk("s3", at(Tok{T: pick2(rng, "one", "free"), N: "x"}), "unset", []Method{})
+
+	steps := []Step{
+		{Kind: "add", Src: "s1", Rules: []Rule{short}},
+		{Kind: "add", Src: "s2", Rules: []Rule{long}},
+		{Kind: "add", Src: "s3", Rules: []Rule{cover}},
+	}
+	rng.Shuffle(len(steps), func(i, j int) { steps[i], steps[j] = steps[j], steps[i] })
+
+	if rng.Intn(2) == 0 {
+		steps = append(steps, Step{Kind: "delete", Src: "s1"})
+	} else {
+		moved := mk("s1", at(lit("bar")), "unset", onlyGet)
+		moved.ID = short.ID
+		steps = append(steps, Step{Kind: "update", Src: "s1", Rules: []Rule{moved}})
+	}
+
+	if rng.Intn(2) == 0 {
+		steps = append(steps, Step{Kind: "add", Src: "s4", Rules: []Rule{mk("s4", at(lit("fo")), "unset", onlyGet)}})
+	}
+
+	return steps
 }
 
 // spoiled mirrors RuleIndex!MustReject, only to keep the generator's idea of the state in sync for
